@@ -33,6 +33,16 @@ Tie between coq/C06M_Model.v and the REAL per-source deblender.  For every gener
   the correctly rounded quotient is below the double `contrast` iff the exact quotient is below the
   midpoint of `contrast` and its predecessor, which is the rational handed to Coq (0 for contrast 0).
 
+Every real call is bounded: the recording watershed wrapper raises `NonTermination` after more calls than
+the cutout has pixels (the model's contrast loop makes at most one call per marker label) and a SIGALRM
+backstop (CASE_TIMEOUT seconds, main thread only) covers any other hang; a non-terminating implementation is
+reported as `correspondence:C06M_Model:non-termination` with the input.  Non-finite detection levels are
+reported as `correspondence:C06M_Model:protocol`.
+
+Thorough tier only (`include_big`): one cutout with > 200 isolated one-pixel peaks (checkerboard,
+connectivity 4, npixels 1, exponential / sinh) so that the `nmarkers` second pass with linear levels is
+exercised (about 3.5 minutes of vm_compute, far above the quick budget).
+
 A disagreement is reported as `correspondence:C06M_Model...` (found_input=False) unless the plain-Python
 oracle `c06_text_oracle` shows that the per-source result contradicts the C06 text (children do not
 partition the footprint / fewer than 2 children / a child with < npixels pixels / labels not 1..k),
@@ -49,7 +59,8 @@ import numpy as np
 
 IMPORTS = ['C06M_Model']
 COQ_FILES = ['lib/Conn.v', 'C04_Model.v', 'C04_Proofs.v', 'C04_PathModel.v', 'C04_PathProofs.v',
-             'C06M_Model.v', 'C06M_Proofs.v', 'C06M_Properties.v']
+             'C06_Model.v', 'C06_Proofs.v',
+             'C06M_Model.v', 'C06M_Proofs.v', 'C06M_Link.v', 'C06M_Properties.v']
 OBLIGATION_FILES = ['C06M_Properties.v']
 
 MODES = ['linear', 'exponential', 'sinh']
@@ -254,6 +265,20 @@ def make_source(rng, kind=None):
     return data, seg, label, kind, steer
 
 
+def make_big_source(rng):
+    """a cutout with more than 200 isolated one-pixel peaks (checkerboard, 4-connectivity, npixels = 1): the
+    only way into the 'nmarkers' second pass (non-linear mode -> linear levels).  About 3.5 minutes of
+    vm_compute (C04's neighbour lists are recomputed per propagation step), hence thorough tier only."""
+    ny, nx = rng.choice([(20, 21), (21, 20), (14, 29)])
+    yy, xx = np.mgrid[0:ny, 0:nx]
+    data = np.ones((ny, nx))
+    peaks = (yy + xx) % 2 == 0
+    data[peaks] = np.array([rng.choice([4, 5, 6, 8]) for _ in range(int(peaks.sum()))], float)
+    label = rng.choice([1, 3, 9])
+    seg = np.full((ny, nx), label, dtype=np.int32)
+    return data, seg, label, rng.choice(['exponential', 'sinh']), rng.randint(1, 2)
+
+
 # --------------------------------------------------------------------------
 # the real deblender under recording wrappers
 # --------------------------------------------------------------------------
@@ -400,7 +425,7 @@ def draw_params(rng, steer):
     return mode, nlevels, contrast, npixels, connectivity
 
 
-def run_marker_correspondence(ctx, n_cases):
+def run_marker_correspondence(ctx, n_cases, include_big=None):
     """Returns a dict of counts; disagreements are reported through ctx.violation."""
     from . import core
     core.setup_repo_path()
@@ -522,9 +547,52 @@ def run_marker_correspondence(ctx, n_cases):
                       'warnings / levels) differs from the model',
                       {'case': m, 'model (result, nonposmin, nmarkers, first markers, watershed marker arrays), '
                                   'check parts': model}, found_input=False)
+    if include_big if include_big is not None else getattr(ctx, 'tier', 'quick') == 'thorough':
+        out_counts['second_pass_cases'] = _run_big(ctx, rng, out_counts)
+    else:
+        ctx.stat('markers', 'second_pass(>200 markers): modelled, not exercised in this tier')
     for k, v in out_counts.items():
         ctx.stat('markers_totals', k, v)
     return out_counts
+
+
+def _run_big(ctx, rng, out_counts):
+    """one source that reaches the > 200 markers second pass (thorough tier)"""
+    rec = _Recorder()
+    rec.install()
+    try:
+        data, seg, label, mode, nlevels = make_big_source(rng)
+        out = run_real(rec, data, seg, label, 1, nlevels, 0.0, mode, 4)
+    finally:
+        rec.remove()
+    desc = {'kind': 'big', 'shape': list(data.shape), 'data': data.tolist(), 'label': int(label), 'npixels': 1,
+            'nlevels': nlevels, 'contrast': 0.0, 'mode': mode, 'connectivity': 4, 'levels': out['levels'],
+            'impl': {'code': out['code'], 'nmarkers': out['nmarkers'], 'watershed_calls': len(out['calls'])}}
+    if not out['nmarkers'] or len(out['levels']) != 2 * nlevels:
+        ctx.violation('correspondence:C06M_Model:protocol',
+                      'a source with more than 200 one-pixel peaks did not take the nmarkers second pass', desc,
+                      found_input=False)
+        out_counts['protocol'] += 1
+        return 0
+    for msg in out['protocol']:
+        out_counts['protocol'] += 1
+        ctx.violation('correspondence:C06M_Model:protocol', msg, desc, found_input=False)
+    term = case_term(data, seg, label, 1, nlevels, 0.0, mode, 4, out)
+    bad = ctx.coq_eval_cases(IMPORTS, 'check_case', [term], case_type='case', tag='c06m_big', timeout=1500)
+    ctx.stat('markers', 'second_pass(>200 markers)=exercised')
+    ctx.stat('markers', 'warning=nmarkers')
+    ctx.count_case(['C06M', 'big', mode, nlevels, core_sha(desc['data'])], True)
+    if bad:
+        out_counts['disagreements'] += 1
+        ctx.violation('correspondence:C06M_Model.check_case',
+                      'the per-source deblender differs from the model on a source that takes the > 200 markers '
+                      'second pass', {'case': desc}, found_input=False)
+    return 1
+
+
+def core_sha(obj):
+    from . import core
+    return core.sha(obj)
 
 
 def main(argv=None):
@@ -541,7 +609,7 @@ def main(argv=None):
     if missing:
         print(log[-2000:])
         return 2
-    out = run_marker_correspondence(ctx, n)
+    out = run_marker_correspondence(ctx, n, include_big=('big' in argv[2:]))
     print(json.dumps({'result': out, 'distribution': ctx.cov['correspondence']}, indent=1))
     for sig, what, path, found in ctx.violations:
         print('VIOLATION' if found else 'DISAGREEMENT', sig, what, path)
